@@ -13,8 +13,57 @@ import (
 	"math/rand"
 	"os"
 	"strconv"
+	"strings"
+	"sync"
 	"testing"
+	"time"
 )
+
+// Watchdog: a call of the code that does not return is an observation like any other.  The driver notes which call of
+// which case is running; a second goroutine writes a Hang event and ends the process when that does not change for 10 s.
+// The runner then starts the driver again with the case in VERIF_SKIPIDS.
+var c15cur struct {
+	mu    sync.Mutex
+	id    int
+	kind  string
+	call  string
+	hex   string
+	since time.Time
+}
+
+func c15note(id int, kind, call string, b []byte) {
+	c15cur.mu.Lock()
+	c15cur.id, c15cur.kind, c15cur.call, c15cur.since = id, kind, call, time.Now()
+	if b != nil {
+		c15cur.hex = fmt.Sprintf("%x", b)
+	}
+	c15cur.mu.Unlock()
+}
+
+func c15watch(fp *os.File, encMu *sync.Mutex) {
+	for {
+		time.Sleep(500 * time.Millisecond)
+		c15cur.mu.Lock()
+		id, kind, call, hex, since := c15cur.id, c15cur.kind, c15cur.call, c15cur.hex, c15cur.since
+		c15cur.mu.Unlock()
+		if id != 0 && time.Since(since) > 10*time.Second {
+			encMu.Lock()
+			json.NewEncoder(fp).Encode(map[string]any{"ev": "Hang", "scen": id, "kind": kind, "call": call, "hex": hex})
+			fp.Sync()
+			os.Exit(7)
+		}
+	}
+}
+
+func c15skip() map[int]bool {
+	out := map[int]bool{}
+	for _, f := range strings.Split(os.Getenv("VERIF_SKIPIDS"), ",") {
+		if n, err := strconv.Atoi(f); err == nil {
+			out[n] = true
+		}
+	}
+	return out
+}
 
 type c15case struct {
 	Tlvs    []string `json:"tlvs"`
@@ -135,6 +184,9 @@ func c15bytes(c c15case) ([]byte, int, int) {
 type c15res map[string]any
 
 func c15call(res c15res, name string, f func() any) {
+	c15cur.mu.Lock()
+	c15cur.call, c15cur.since = name, time.Now()
+	c15cur.mu.Unlock()
 	defer func() {
 		if r := recover(); r != nil {
 			res["panics"] = append(res["panics"].([]string), name+": "+fmt.Sprint(r))
@@ -146,6 +198,9 @@ func c15call(res c15res, name string, f func() any) {
 // c15decode decodes b and exercises every accessor.
 func c15decode(b []byte) c15res {
 	res := c15res{"panics": []string{}, "nbytes": len(b)}
+	c15cur.mu.Lock()
+	c15cur.call, c15cur.since = "ReadPacket", time.Now()
+	c15cur.mu.Unlock()
 	rd := bytes.NewReader(b)
 	var p *Packet
 	var err error
@@ -210,6 +265,7 @@ type c15ctor struct {
 	Ver    int     `json:"ver"`
 	Ops    []string `json:"ops"` // after NewData: settime | resettime | cleardata | newdata
 	TS     uint64  `json:"ts"`
+	Rate   float64 `json:"rate"` // timestamp rate handed to SetTimestamp
 }
 
 func c15roundtrip(c c15ctor, rng *rand.Rand) (res c15res) {
@@ -256,7 +312,7 @@ func c15roundtrip(c c15ctor, rng *rand.Rand) (res c15res) {
 	for _, op := range c.Ops {
 		switch op {
 		case "settime":
-			p.SetTimestamp(&PacketTimestamp{T: c.TS, Rate: 1e8})
+			p.SetTimestamp(&PacketTimestamp{T: c.TS, Rate: c.Rate})
 			hasTS = true
 		case "resettime":
 			p.ResetTimestamp()
@@ -336,6 +392,9 @@ func TestVerifC15(t *testing.T) {
 	}
 	defer fp.Close()
 	enc := json.NewEncoder(fp)
+	var encMu sync.Mutex
+	go c15watch(fp, &encMu)
+	skip := c15skip()
 	seed, _ := strconv.ParseInt(os.Getenv("VERIF_SEED"), 10, 64)
 	nmut, _ := strconv.Atoi(os.Getenv("VERIF_NRANDOM"))
 	rng := rand.New(rand.NewSource(seed))
@@ -351,11 +410,17 @@ func TestVerifC15(t *testing.T) {
 	for _, c := range cases {
 		id++
 		b, hl, pl := c15bytes(c)
+		if skip[id] {
+			continue
+		}
+		c15note(id, "grammar", "ReadPacket", b)
 		r := c15decode(b)
 		r["ev"], r["scen"], r["kind"] = "Decode", id, "grammar"
 		r["case"] = c
 		r["declhdr"], r["declpay"] = hl, pl
+		encMu.Lock()
 		enc.Encode(r)
+		encMu.Unlock()
 		if r["ok"].(bool) && len(good) < 400 {
 			good = append(good, b)
 		}
@@ -385,6 +450,10 @@ func TestVerifC15(t *testing.T) {
 				b = []byte{0}
 			}
 		}
+		if skip[id] {
+			continue
+		}
+		c15note(id, "mutation", "ReadPacket", b)
 		r := c15decode(b)
 		r["ev"], r["scen"], r["kind"] = "Decode", id, "mutation"
 		hl, pl := 0, 0
@@ -393,7 +462,9 @@ func TestVerifC15(t *testing.T) {
 		}
 		r["declhdr"], r["declpay"] = hl, pl
 		r["case"] = c15case{Tlvs: []string{}, Hdr: "mutated", Payload: "mutated"}
+		encMu.Lock()
 		enc.Encode(r)
+		encMu.Unlock()
 	}
 	// constructor histories
 	kinds := []int{16, 32, 64}
@@ -408,10 +479,17 @@ func TestVerifC15(t *testing.T) {
 					nch *= d
 				}
 				c := c15ctor{Kind: k, Dims: ds, N: nch * (1 + rng.Intn(4)), Off: []int{0, 8, 1 << 20}[rng.Intn(3)], Seq: []uint32{0, 77, 0xfffffffe}[rng.Intn(3)],
-					Src: rng.Uint32(), Ver: 0x10, Ops: ops, TS: []uint64{0, 1, 1 << 47, 1<<63 + 5}[rng.Intn(4)]}
+					Src: rng.Uint32(), Ver: 0x10, Ops: ops, TS: []uint64{0, 1, 1 << 47, 1<<63 + 5}[rng.Intn(4)],
+					Rate: []float64{1e8, 1.25e8, 1e9, 5e6, 1, 0}[(id+k)%6]} // 0 = the field left unset
+				if skip[id] {
+					continue
+				}
+				c15note(id, "ctor", "roundtrip", []byte(fmt.Sprintf("%+v", c)))
 				r := c15roundtrip(c, rng)
 				r["ev"], r["scen"], r["kind"], r["ctor"] = "Roundtrip", id, "ctor", c
+				encMu.Lock()
 				enc.Encode(r)
+				encMu.Unlock()
 			}
 		}
 	}
